@@ -526,6 +526,7 @@ type c04Case struct {
 	Point   string `json:"point,omitempty"`
 	N       int    `json:"n"`
 	Second  bool   `json:"second_fault"`      // a second SIGKILL during the restarted run
+	BadRow  int    `json:"bad_row,omitempty"` // > 0: a row whose URL cannot be parsed (bad percent escape, as the text/* link extractor can queue) sits at this position of the queue
 	HoldOn  string `json:"hold_on,omitempty"` // cdx faults: hold the WARC write of the first URL containing this text (instead of the N-th write)
 }
 
@@ -542,6 +543,9 @@ func genC04(t *rapid.T) c04Case {
 	}
 	c.Point = c04Points[rapid.IntRange(0, len(c04Points)-1).Draw(t, "point")]
 	c.N = rapid.IntRange(1, 12).Draw(t, "n")
+	if rapid.IntRange(0, 3).Draw(t, "badrow") == 0 {
+		c.BadRow = rapid.IntRange(1, min(c.Rows-1, 4)).Draw(t, "badrowat")
+	}
 	if c.Fault == "cdx-kill" {
 		c.Assets = 2 // two assets are captured concurrently (--max-concurrent-assets 2); the WARC write of one of them is held back
 		if rapid.Bool().Draw(t, "holdon") {
@@ -637,6 +641,12 @@ func runC04(t veriflib.TB, c c04Case) (res c04Result) {
 	}
 	queue := map[string]string{} // id -> path
 	for i := 0; i < c.Rows; i++ {
+		if c.BadRow > 0 && i == c.BadRow {
+			// the crawler can only drop such a row (it is exempt from "finished implies captured"); the rows after it are not
+			if _, err := db.Exec("INSERT INTO urls (id, value, via, hops) VALUES (?, ?, '', 0)", "q-bad", o.URL("/sale/100%_off")); err != nil {
+				t.Fatalf("harness: insert: %v", err)
+			}
+		}
 		id := fmt.Sprintf("q-%03d", i)
 		queue[id] = fmt.Sprintf("/p%d", i)
 		if _, err := db.Exec("INSERT INTO urls (id, value, via, hops) VALUES (?, ?, '', 0)", id, o.URL(queue[id])); err != nil {
@@ -893,7 +903,7 @@ func propC04(t veriflib.TB, c c04Case) {
 	if res.Viol != "" {
 		veriflib.Fail(t, "C04", "C04/proc", c, res, "%s", res.Viol)
 	}
-	cl := []string{"fault:" + c.Fault, fmt.Sprintf("workers:%d", c.Workers)}
+	cl := []string{"fault:" + c.Fault, fmt.Sprintf("workers:%d", c.Workers), fmt.Sprintf("unparseable-row:%v", c.BadRow > 0)}
 	if strings.HasSuffix(c.Fault, "-hook") {
 		cl = append(cl, "point:"+c.Point)
 	}
@@ -928,7 +938,7 @@ func TestVerif_C04_Proc(t *testing.T) {
 	} else if i%2 == 0 {
 		propC04(t, c04Case{Rows: 6 + i, Workers: 1, Assets: 1 + i%2, Fault: "term-cdx-kill", N: i / 2})
 	} else {
-		propC04(t, c04Case{Rows: 10 + i, Workers: 1 + i%3, Assets: i % 2, Fault: "term-arrival", N: 2 + i})
+		propC04(t, c04Case{Rows: 10 + i, Workers: 1 + i%3, Assets: i % 2, Fault: "term-arrival", N: 2 + i, BadRow: (i % 4) * (i % 3)})
 	}
 	rapid.Check(t, func(rt *rapid.T) {
 		c := genC04(rt)
